@@ -211,7 +211,13 @@ func NewBlockFromBytes(serializedBlock []byte) (*Block, error) {
 	if err != nil {
 		return nil, err
 	}
-	b.serializedBlock = serializedBlock[:len(serializedBlock)-br.Len()]
+	// Cache the consumed bytes only when they are the canonical serialization
+	// of what was parsed.  The wire decoder accepts a few encodings it does
+	// not write back (e.g. a CashToken prefix with an all-zero category).
+	consumed := serializedBlock[:len(serializedBlock)-br.Len()]
+	if len(consumed) == b.msgBlock.SerializeSize() {
+		b.serializedBlock = consumed
+	}
 	return b, nil
 }
 
